@@ -482,4 +482,4 @@ def main(chk: Check) -> None:
         chk.extra["exhaustive_scope"] = f"grid: all list pairs up to length {max_len} over {_GRID_TOKENS} × 3 server encode sets × (unary | producer continuation); e2e family is sampled"
     for c in _REGRESSIONS:
         chk.case("e2e", c, run_case)
-    chk.explore("e2e", e2e_cases, run_case, quick=2500, thorough=40000)
+    chk.explore("e2e", e2e_cases, run_case, quick=5000, thorough=40000)
